@@ -10,12 +10,15 @@ tables of box / guide glyphs, padding arithmetic and alignment offsets.
 families: panel, padding, align, constrain, styled, rule, bar, pbar, columns, tree
 consoles: utf8 | ascii (file.encoding == "ascii" -> options.ascii_only) | legacy (legacy_windows=True)
 
-Measured on this machine while ~10 other agents kept the load average at 110-150 (so wall
-times are inflated 8-10x; CPU seconds are the stable number):
-  quick    355,954 cases, 1,362 distinct outcomes, 257 CPU-s (wall 228 s with 6 workers under
-           load; ~20 s expected on 16 idle cores)
-  thorough 2,425,364 cases, 1,528 distinct outcomes, 2,084 CPU-s (wall 1,932 s with 16 workers
-           under load; ~2.5 min expected on 16 idle cores)
+HISTORY part (E2 style): 20 mutable subjects x all histories of length <=3 (thorough <=4) over
+{render at W1, render at W2, public mutators}; the last render must equal the render of a fresh
+object built in the final state and pass the family's own clauses (keys history/<kind>/...).
+
+Measured (shared machine, load average 30-150; CPU seconds are the stable number):
+  quick    249,482 cases (664 of them histories), 1,164 distinct outcomes, ~165 CPU-s
+           (wall 22-58 s with 6 workers under load)
+  thorough 2,432,594 cases (7,230 histories), ~2,100 CPU-s (wall 1,932 s with 16 workers at
+           load 140; ~2.5 min expected on 16 idle cores)
 """
 import io
 import itertools
